@@ -375,6 +375,7 @@ def write_replay(pid, obj):
 
 # ------------------------------------------------------------------ concrete values: generation and canonical comparison
 import random, struct
+M64 = (1 << 64) - 1
 def f32b(x): return struct.unpack('<I', struct.pack('<f', x))[0]
 def f64b(x): return struct.unpack('<Q', struct.pack('<d', x))[0]
 L32 = [f32b(x) for x in [0.0, -0.0, 1.0, -1.0, 0.5, -0.5, 1.5, 2.5, -2.5, 1e-40, -1e-45, 1.17549435e-38, 3.4028235e38, -3.4028235e38, float('inf'), -float('inf'), 8388607.5, 8388608.0, 16777216.0, 16777217.0, 2147483648.0, -2147483648.0, 4294967296.0, 0.1, 0.3, 3.0, 7.0, 1e10, 1e-20, 1e20]] + [0x7fc00000, 0xffc00000, 0x7fa00001, 0xffffffff, 0x7f800001, 0x00000001, 0x807fffff]
@@ -448,9 +449,27 @@ def gen_value(structs, enums, t, g):
     if 'simd' in t and t['simd'] == 'f32x4': ws = [g.f32() for _ in range(4)]; return ws, 'VT [%s]' % '; '.join('vf32 %d' % w for w in ws)
     raise SymErr('gen ' + json.dumps(t))
 
+def words_from_values(structs, enums, t, it):
+    """driver argument words for a value whose symbolic leaves (core.sym order) take the given values"""
+    if isinstance(t, str):
+        if t in ('f32', 'f64', 'bool') or t in INTS: return [next(it) & M64]
+        if t == 'm128': return [next(it) & M64 for _ in range(4)]
+        if t == 'unit': return []
+        raise SymErr('words ' + t)
+    if 'n' in t:
+        n = t['n']
+        if n in ('BVec3A', 'BVec4A') and mask_kind(structs, n) != 'bool': raise SymErr('mask words')
+        if n in structs:
+            ws = [w for _, ft in structs[n] for w in words_from_values(structs, enums, ft, it)]
+            if n == 'Vec3A' and len(ws) == 3: ws.append(0)
+            return ws
+        raise SymErr('words ' + n)
+    if 't' in t: return [w for x in t['t'] for w in words_from_values(structs, enums, x, it)]
+    if 'a' in t and t['len'] is not None: return [w for _ in range(t['len']) for w in words_from_values(structs, enums, t['a'], it)]
+    raise SymErr('words ' + json.dumps(t))
+
 def _nan32(w): return (w & 0x7f800000) == 0x7f800000 and (w & 0x7fffff) != 0
 def _nan64(w): return (w & 0x7ff0000000000000) == 0x7ff0000000000000 and (w & 0xfffffffffffff) != 0
-M64 = (1 << 64) - 1
 def canon(structs, enums, t, it, side):
     """consume the flat words of a result (side 'model' = Sem.out order, 'driver' = rt.rs order) -> comparable list.
     NaNs are canonicalised (any NaN equals any NaN); hidden lanes are dropped."""
